@@ -132,6 +132,10 @@ def configs(tier):
                 elif 'discrete' in entry:
                     c['tmax'] = 'steps:2'
                 out.append(c)
+    # a concrete non-integer start time (the time axis of the discrete-time simulators is tmin, tmin+1, ... as doubles)
+    for entry in ('discrete_SIR', 'basic_discrete_SIR', 'basic_discrete_SIS'):
+        for full in (False, True):
+            out.append(dict(entry=entry, graph='K2', I0=[0], R0=[], full=full, tmin=2.3, tmax='steps:6', p=1, tags=['K2', 'full' if full else 'plain', 'tmin=2.3']))
     # discrete_SIR with a user recovery test that may keep a node infectious for several steps (engine-chosen answers)
     for g in ['K2+K1', 'P3'] + (['K3', 'P4'] if tier == 'thorough' else []):
         for I0, R0 in graphs.automorphism_reduced_ics(g):
